@@ -13,6 +13,7 @@ RULE_MODULES: Dict[str, str] = {
     "R5": "r05_mintable",
     "R6": "r06_order",
     "R7": "r07_sites",
+    "R14": "r14_tasks",
     "R17": "r17_dataflow",
     "R19": "r19_cyclegate",
     "R20": "r20_connect",
@@ -41,8 +42,9 @@ PROPERTY_RULES: Dict[str, List[str]] = {
     "C11": ["R7/R9", "R20", "R19/interval", "R19/group_path", "R22/readers", "R22/tuple"],
     "C12": ["R22"],
     "C13": ["R11", "R3/P2", "R3/P6"],
+    "C14": ["R14", "R11/conn"],
     "C15": ["R23", "R3/P3b"],
-    "C16": ["R1/O2", "R1/O4", "R20/async", "R20/connect", "R10/gate", "R10/set_data", "R10/get_data", "R17/take", "R17/memory"],
+    "C16": ["R1/O2", "R1/O4", "R20/async", "R20/connect", "R10/gate", "R10/set_data", "R10/get_data", "R17/take", "R17/memory", "R17/writeback"],
     "C17": ["R2/rt", "R4/wait", "R10/set_event", "R10/run", "R10/rt_check", "R10/R18"],
     "C18": ["R24"],
 }
@@ -77,6 +79,8 @@ CLAIMS: Dict[str, Tuple[str, str]] = {
             "the value-level input/output relation of parse_attrs over all concrete descriptions"),
     "C13": ("decision table of scheduler.step / get_outputs over the reply: every malformed reply class has a dominating SimulationError naming the simulator and precedes every effect; the popped step is never re-inserted",
             "reply classes not listed in the statement"),
+    "C14": ("cleanup is reached from every exit of run() (try/finally), covers every simulator, is exception-isolated and idempotent, closes channel / reader task / server socket / loop on every path; every created task has an owner that awaits it concurrently and cancels + drains it on failure and cancellation exits; the reader task cannot await itself; connection loss becomes a SimulationError naming the simulator",
+            "promptness (timing), behaviour for each crash point, child-process reaping, faults inside mosaik_api_v3"),
     "C15": ("request shapes of every Proxy.send site (step: exactly 3 positional arguments, no keyword arguments), the feature/adapter table (max_advance, setup_done, missing type), thresholds and nesting order of the adapters for representative versions, the two rejections dominate the wrapping, configured and reported versions are parsed alike, in-process time_resolution handling",
             "'sees the same scheduling and data as a current-version simulator' (behaviour)"),
     "C16": ("the producer waits unconditionally for its async consumers, set_data/get_data are gated by _assert_async_requests (ScenarioError for both missing-connection cases) before any access, set_data inputs are consumed exactly once (take and clear), connect_async_requests fills successors, successors_to_wait_for and input_delays",
